@@ -797,6 +797,24 @@ def stage_refusals(ctx):
                      "is not exercisable)" % lens_mod.NUMEXPR_INSTALLED)
 
 
+def _src_items():
+    from harness.lib import pysrc
+    return [dict(file="holopy/scattering/theory/mielens.py", qualname="MieLens.raw_fields (index_ratio .. phi)", name="mielens_setup_src",
+                 fn=lambda repo: pysrc.translate_segment(
+                     repo, "holopy/scattering/theory/mielens.py", "MieLens.raw_fields", "mielens_setup_src", "index_ratio", "phi",
+                     ["index_ratio", "size_parameter", "rho", "phi", "z", "pol_angle"], inputs=["medium_wavevec", "medium_index"],
+                     triples=["positions"], calls={"mod2pi": ("mod2pi", 1), "np.arctan2": ("atan2", 2)},
+                     opaque_exprs={"scatterer.n": "n", "scatterer.r": "r", "illum_polarization.values[1]": "py",
+                                   "illum_polarization.values[0]": "px"},
+                     extra_sig="(mod2pi : R -> R) (atan2 : R -> R -> R)"))]
+
+
+def stage_srctie(ctx):
+    from harness.lib import srctie
+    ok = srctie.run(ctx, "C08", "From HV Require Import C08.Model C08.Lemmas C08.Props.\n", _src_items())
+    ctx.count("srctie:%s" % ("ok" if ok else "broken"))
+
+
 def run(ctx):
     ctx.rule = ("explore: sphere (m 1.05-2.5, size parameter 0.1-50 log-uniform) x k*z in [-150, 300] x lens angle 0.1-1.4 x "
                 "polarisation angle (axes, diagonals, arbitrary) x 6 detector points with k*rho up to 3/20/60/150/380(/700 thorough); "
@@ -834,7 +852,15 @@ def run(ctx):
         "oracle: numpy legval is compared with the model's Clenshaw loop to 1e-12 on every aberrated case",
         "unproved, explored only: (1/2pi) int exp(i a cos u) {1, cos2u, sin2u} du = {J0(a), -J2(a), 0}; quadrature convergence; "
         "Chebyshev interpolation accuracy"]
+    ctx.clauses_proved.append(
+        "source tie: the set-up lines of MieLens.raw_fields (index ratio, size parameter, azimuth measured from the polarisation "
+        "direction and reduced modulo 2 pi), translated from the current source text on every run: the azimuth handed to the lens "
+        "integrals is relative to the polarisation (turning detector and polarisation together leaves it unchanged), the sphere "
+        "enters through n / n_m and k r only")
+    ctx.trusted.append("translator harness/lib/pysrc.py (segment index_ratio .. phi of MieLens.raw_fields; np.arctan2 and the float "
+                       "operator % (2 pi) are oracle parameters; scatterer.n, scatterer.r and the polarisation components opaque reals)")
     guarded(ctx, "prove", ctx.prove)
+    guarded(ctx, "source-tie", stage_srctie, ctx)
     boot.boot()
     warnings.simplefilter("ignore")
     guarded(ctx, "pupil", stage_pupil, ctx)
@@ -848,9 +874,13 @@ def run(ctx):
 
 def replay(ctx, data):
     """re-run the stored failing case on the current tree"""
+    d = data["data"]
+    if d.get("kind") == "tie":
+        ctx.prove()
+        stage_srctie(ctx)
+        return
     boot.boot()
     warnings.simplefilter("ignore")
-    d = data["data"]
     if d.get("kind") == "history" and "case" in d:
         history_case(ctx, d["case"])
     elif d.get("kind") == "siblings" and "case" in d:
